@@ -110,7 +110,7 @@ def main():
     import tempfile
     import e2e
     B = 1100
-    cov_plan = {'f1': [1.0, 1.0, 1.0, 0.2], 'f2': [0.5, 0.9, 1.0, 0.8]}
+    cov_plan = {'f1': [1.0, 0.0, 1.0, 0.2], 'f2': [0.5, 0.9, 1.0, 0.8]}       # f1 is entirely missing in the second batch (coverage 0 counts)
     rows = []
     for b in range(4):
         for i in range(B):
